@@ -49,10 +49,14 @@ pub struct Opaque {
 #[derive(Clone, Debug)]
 pub enum What {
     Enum,
-    /// struct regenerated as a Lean structure (all fields primitive)
-    Struct,
+    /// struct regenerated as a Lean structure (fields: primitives, arrays / slices of primitives);
+    /// `bits`: its `u64` fields are Lean `UInt64`s
+    Struct { bits: bool },
     Const,
-    Fn { opaque: &'static [Opaque], vec_list: bool },
+    /// constant used by bit-manipulating functions: `u64` is Lean `UInt64`
+    ConstB,
+    /// `bits`: bit-manipulating function, `u64` values are Lean `UInt64`s (no range-checked `Int`s)
+    Fn { opaque: &'static [Opaque], vec_list: bool, bits: bool },
     /// the body `wrapper(expr)` (or `expr`) of the one-argument closure passed to the method `method` inside the
     /// function `name`, as a function of the closure argument (of type `arg_ty`) and the parameters of `name`;
     /// the Lean name is `<name>_<suffix>`
@@ -122,10 +126,14 @@ pub struct EnumInfo {
 pub struct StructInfo {
     pub file: String,
     pub fields: Vec<(String, syn::Type)>,
+    /// names of the generic type parameters (`struct HashTable<K, V>`)
+    pub generics: Vec<String>,
     /// `#[derive(Default)]` present
     pub derives_default: bool,
     /// regenerated as Lean structure (in this module)?
     pub lean_module: Option<String>,
+    /// regenerated with `u64` = `UInt64`
+    pub bits: bool,
 }
 
 pub struct World {
